@@ -2849,6 +2849,11 @@ impl Server {
             }
         }
         
+        // NX and XX contradict each other (the script path refuses the combination as well)
+        if nx && xx {
+            return Ok(RespFrame::error("ERR syntax error"));
+        }
+        
         // Handle NX option (only set if key doesn't exist) - use atomic operation
         if nx {
             let result = match expiration {
